@@ -224,14 +224,14 @@ Proof.
     specialize (PC eq_refl). subst c. cbn [s_t s_proto s_rxbuf s_connector s_down s_failures s_addr] in H.
     destruct (Go (mkS t true rx CNone DPending f a) [OLose] eq_refl ltac:(constructor; cbn; auto; discriminate) ltac:(intros x Hx; cbn in Hx; intuition (subst; auto 10)) H)
       as (K2 & X2 & E2 & (C1 & C2 & C3)).
-    cbn in C1, C2, C3. repeat split; auto.
+    cbn in C1, C2, C3. split; [exact K2 | split; [exact X2 | split; [exact E2 | intros _; auto]]].
   - destruct c; cbn [s_t s_proto s_rxbuf s_connector s_down s_failures s_addr fire_down with_down with_connector] in H.
     + destruct (Go (mkS t false rx CNone DFired f a) [OCloseFired] eq_refl ltac:(constructor; cbn; auto; discriminate) ltac:(intros x Hx; cbn in Hx; intuition (subst; auto 10)) H)
-        as (K2 & X2 & E2 & _). repeat split; auto; discriminate.
+        as (K2 & X2 & E2 & _). split; [exact K2 | split; [exact X2 | split; [exact E2 | intros; discriminate]]].
     + destruct (Go (mkS t false rx CStale DFired f a) [OCancelAttempt; OCloseFired] eq_refl ltac:(constructor; cbn; auto; discriminate) ltac:(intros x Hx; cbn in Hx; intuition (subst; auto 10)) H)
-        as (K2 & X2 & E2 & _). repeat split; auto; discriminate.
+        as (K2 & X2 & E2 & _). split; [exact K2 | split; [exact X2 | split; [exact E2 | intros; discriminate]]].
     + destruct (Go (mkS t false rx CStale DFired f a) [OCancelTimer; OCloseFired] eq_refl ltac:(constructor; cbn; auto; discriminate) ltac:(intros x Hx; cbn in Hx; intuition (subst; auto 10)) H)
-        as (K2 & X2 & E2 & _). repeat split; auto; discriminate.
+        as (K2 & X2 & E2 & _). split; [exact K2 | split; [exact X2 | split; [exact E2 | intros; discriminate]]].
     + exfalso. apply NS. reflexivity.
 Qed.
 
